@@ -120,6 +120,38 @@ def c03_sweep(ctx, n):
         if not ok:
             fails.append({"key": f"covariance:nested:{'anchor' if use_anchor else 'own-centre'}", "desc": "a nested collection moved as a whole (rotate + move) is not covariant",
                           "replay": {"anchor": None if anchor is None else anchor.tolist(), "quat": Q.as_quat().tolist(), "t": t.tolist(), "path_length": mlen}})
+    # the same compound placed through the pose setters / copy keywords: a compound built in its own frame (collection pose =
+    # identity) and then given orientation Q and position t must produce Q B_local(Q^-1 (x - t)) — at every nesting level
+    for i in range(max(6, n // 6)):
+        nps = np.random.default_rng(rng.randrange(2**31))
+        def leaf():
+            return make(rng.choice(CLASSES), nps, path=1)
+        inner = magpy.Collection(leaf(), leaf(), position=nps.uniform(-2, 2, 3), orientation=R.random(rng=nps))
+        innermost = magpy.Collection(leaf(), position=nps.uniform(-1, 1, 3))
+        if rng.random() < 0.5:
+            inner.add(innermost)
+        outer = magpy.Collection(leaf(), inner)
+        obs = far_points(nps, 4, lo=8, hi=12)
+        f0 = magpy.getB(outer, obs)
+        Q, t = R.random(rng=nps), nps.uniform(-3, 3, 3)
+        how = rng.choice(["setters", "copy-keywords", "setters-reversed"])
+        if how == "setters":
+            placed = outer.copy()
+            placed.orientation = Q
+            placed.position = t
+        elif how == "setters-reversed":
+            placed = outer.copy()
+            placed.position = t
+            placed.orientation = Q
+        else:
+            placed = outer.copy(position=t, orientation=Q)
+        f1 = magpy.getB(placed, Q.apply(obs) + t)
+        exp = Q.apply(f0)
+        done += 1
+        per["nested-setters"] = per.get("nested-setters", 0) + 1
+        if not _close(f1, exp, float(np.max(np.abs(exp))) + 1e-300, 1e-7):
+            fails.append({"key": f"covariance:nested:{how}", "desc": f"a nested collection placed through {how} (orientation Q, position t) does not give Q B_local(Q^-1 (x - t))",
+                          "replay": {"how": how, "quat": Q.as_quat().tolist(), "t": t.tolist(), "depth": 3 if innermost.parent is inner else 2}})
     return fails, {"c03_cases": done, "c03_per_class": per}
 
 
@@ -389,6 +421,13 @@ def c06_sweep(ctx, n):
             far_box = box_mesh(nps.uniform(0.5, 1.5, 3), nps.uniform(-1, 1, 3), position=nps.uniform(3000, 30000, 3) * nps.choice([-1, 1], 3))
             srcs = [tet, far_box] if rng.random() < 0.7 else [far_box, tet, box_mesh(nps.uniform(0.5, 1.5, 3), nps.uniform(-1, 1, 3), position=(-20000.0, 10.0, 5.0))]
             inside_pts = []
+        if i % 7 == 1 or (not inside_pts and rng.random() < 0.15):
+            # user-defined sources, each with its OWN field function, among (or instead of) the library sources, bare and as
+            # members of a collection: an entry's row is the field of that entry alone, whichever function its neighbours carry
+            customs = [custom_source(nps, path=rng.choice([1, 1, 2])) for _ in range(rng.choice([2, 3]))]
+            srcs = ([] if rng.random() < 0.3 else srcs[:2]) + customs
+            rng.shuffle(srcs)
+            inside_pts = []
         nk = rng.choice([1, 1, 2])
         shape = rng.choice([(3,), (2, 3), (1, 1, 3)])
         sens = [magpy.Sensor(position=far_points(nps, rng.choice([1, 2, 3]), lo=4, hi=8), pixel=nps.uniform(-0.3, 0.3, shape),
@@ -402,6 +441,8 @@ def c06_sweep(ctx, n):
             sens = [magpy.Sensor(pixel=np.array(inside_pts) + nps.uniform(-0.01, 0.01, (len(inside_pts), 3)))]
             nk = 1
         field = rng.choice(["B", "H", "J", "M"])
+        if any(type(s_).__name__ == "CustomSource" for s_ in srcs):
+            field = rng.choice(["B", "H"])
         get = getattr(magpy, "get" + field)
         out = get(srcs, sens, squeeze=False)
         M = max([len(s._position) for s in srcs] + [len(s._position) for s in sens])
